@@ -265,6 +265,28 @@ PROPS["C10"] = dict(
                 "close sequences, cached identity, concurrent awaits.",
 )
 
+PROPS["C20"] = dict(
+    modules=["common", "hdrs", "c03", "c02", "c05", "c20"],
+    contracts=["wsgi.ensure_next", "Headers.__init__", "asgi.StreamingResponse.__call__"],
+    refute={"quick": [2], "thorough": [1, 2, 3]},
+    native="c20",
+    level="other",
+    trusted=["A-py-1", "A-solver", "A-pyvc"],
+    level_text="Mixed. PROVED: the WSGI body relay ensure_next yields exactly the inner application's items, each once and in "
+               "order, for re-iterable (list/tuple) and one-shot (generator) bodies of any length, and an empty body stays "
+               "empty; Headers.__init__ keeps every header name that occurs once with its value (names occurring several times "
+               "are folded - the known finding); the ASGI StreamingResponse.__call__ that re-emits the relayed body is legal at "
+               "every emission (from C05). BOUNDED (labelled): capture of status/headers, CachedStream, decorator/middleware "
+               "wrappers and whole identity stacks of depth 0..3 over every response class and raw applications are compared "
+               "with the bare application on a recording server (status, header multiset, body bytes, inner app ran once).",
+    level_note="Trusted: the nested generator is run to completion (A-gen-eager); SpooledTemporaryFile returns what was written "
+               "(A-spool-1, bounded only). Known finding (open): NextResponse stores the inner headers in a mapping, so "
+               "header names that occur several times (e.g. two Set-Cookie lines) arrive folded into one comma-joined line.",
+    technique="deductive verification: relay contract over an abstract (re-)iterable with ghost output list, SMT; bounded differential run of identity stacks",
+    explanation="proved: ensure_next relay, Headers.__init__ single-occurrence clause, streaming re-emission legality; bounded: "
+                "status/header capture, ASGI CachedStream, decorator/middleware stacks.",
+)
+
 NOT_APPLICABLE = {
     "C06": "quantifies over schedules/interleavings (relay thread vs consumer vs closer, asyncio tasks vs ping timer) and is a "
            "bounded-liveness claim; contracts over a sequential, await-erased semantics cannot express an interleaving and "
